@@ -1,5 +1,6 @@
 \* separation: shares combined with the other variant (native <-> ssss) must NOT reconstruct the secret
-CONSTANTS MaxN = 3
+CONSTANTS FieldM = 3
+MaxN = 3
 MaxK = 3
 FlipVariant = TRUE
 INIT Init
